@@ -329,3 +329,13 @@ META = {
 def obligations():
     from props import pat_ob
     return _obligations_matrix() + pat_ob.obligations_c06()
+
+# ----------------------------------------------------------------------------- O6.3 the scrutinee of a match is evaluated (exactly once) even when no arm inspects it
+def ob_scrutinee_once(r, tier, seed, **kw):
+    """the C09 O9.7 exploration (compile_match::compile_expr on blocks of statements, effects = calls): among the statement values are `match f() { _ => 7 }` and
+    `match f() { w => 7 }` and destructuring lets of tuples of calls - the Core must call f exactly once, before anything that follows"""
+    from props import core_ob
+    core_ob.ob_core_block_effects(r, tier, seed, **kw)
+_c06_obl3 = obligations
+def obligations():
+    return _c06_obl3() + [Ob('O6.3-scrutinee-evaluated-once', 'a match / destructuring let evaluates its scrutinee exactly once, whatever its arms inspect', ob_scrutinee_once, ('quick', 'thorough'), 5, {})]
